@@ -1236,10 +1236,13 @@ where
             if let Some(ablob) = safe.active_blob.as_ref() {
                 ablob.read().await.fsyncdata().await?;
             }
+            // The list lock is taken before the blob leaves its slot: a future dropped while waiting for it loses nothing
+            let safe = &mut *safe;
+            let mut blobs = safe.blobs.write().await;
             // always true
             if let Some(ablob) = safe.active_blob.take() {
                 let ablob = (*ablob).into_inner();
-                safe.blobs.write().await.push(ablob).await;
+                blobs.push(ablob).await;
             }
             Ok(())
         }
